@@ -90,6 +90,11 @@ func (g *lfGen) selector() string {
 	return name + "{" + strings.Join(ms, ", ") + "}"
 }
 
+func (g *lfGen) selectorWith(matcher string) string {
+	g.leaves++
+	return fmt.Sprintf("m%d{%s}", g.leaves, matcher)
+}
+
 func (g *lfGen) matching(set bool) string {
 	switch g.rr.Intn(6) {
 	case 0, 1:
@@ -203,6 +208,18 @@ func (g *lfGen) vec(depth int) string {
 			}
 			return fmt.Sprintf("(sum by (%s, %s) (%s without (%s) (%s)) %s on(%s)%s max without (%s) (%s))",
 				l1, l2, hx.Pick(g.rr, []string{"sum", "max"}), l1, g.selector(), op, l1, mod, l1, g.selector())
+		}
+		if !g.c12 && g.rr.Intn(4) == 0 {
+			// group_left / group_right copying in a label that the "many" side has explicitly lost
+			l := hx.Pick(g.rr, lfLabels)
+			m := hx.Pick(g.rr, lfLabels)
+			side := hx.Pick(g.rr, []string{"group_left", "group_right"})
+			lost := hx.Pick(g.rr, []string{g.selectorWith(l + `=""`), "sum without (" + l + ") (" + g.selector() + ")", "max by (" + m + ") (" + g.selector() + ")"})
+			other := g.selector()
+			if side == "group_left" {
+				return fmt.Sprintf("(%s * on(%s) group_left(%s) %s)", lost, m, l, other)
+			}
+			return fmt.Sprintf("(%s * on(%s) group_right(%s) %s)", other, m, l, lost)
 		}
 		switch g.rr.Intn(5) {
 		case 0:
